@@ -1400,4 +1400,36 @@ theorem c07_commit_resettles_instance :
     s1.nodeIds = [0] ∧ (s1.finalize 7 1).nodeIds = [0, 1] ∧ (copyStore (s1.finalize 7 1)).nodeIds = [0, 1] := by
   decide
 
+/-! ### property calls on an entity that is not alive (repair 9bbd0dc)
+
+`set_node_property` / `set_edge_property` now write nothing when the entity has no non-deleted
+version. `GrafeoDB` still logs the record before calling the store. Call and replay are the
+same function (`api_data`) applied to the same store (`InSync`), so the aliveness test gives
+the same answer both times — whatever the answer is: -/
+
+/-- F: on an entity that is not alive the call — and the replay of its record — is the identity -/
+theorem c05b_set_on_dead_is_noop (s : Store) (id k : Nat) (v : String) :
+    (nodeAlive s id = false → applyRec s (.setNodeProp id k v) = s ∧ liveStep s (.setNodeProp id k v) = s) ∧
+    (edgeAlive s id = false → applyRec s (.setEdgeProp id k v) = s ∧ liveStep s (.setEdgeProp id k v) = s) := by
+  constructor
+  · intro h
+    have : s.setNodeProp id k v = s := by rw [setNodeProp_eq, h]; rfl
+    exact ⟨this, this⟩
+  · intro h
+    have : s.setEdgeProp id k v = s := by rw [setEdgeProp_eq, h]; rfl
+    exact ⟨this, this⟩
+
+/-- N: properties set on a deleted node, on a node id not yet handed out (node 2 is created
+*after* the refused call and must not inherit the value), on a deleted edge: refused at call
+time, logged (9 records), refused again on replay — same dump before and after close→reopen,
+and in a saved copy. Run on the real database as `/tmp/c05b/dead.ops`: implementation = model. -/
+theorem c05b_set_on_dead_instance :
+    let h : List LOp := [.createNode [], .deleteNode 0, .setNodeProp 0 1 "I5", .setNodeProp 2 1 "I2",
+      .createNode [], .createNode [], .createEdge 1 2 0, .deleteEdge 0, .setEdgeProp 0 1 "I2"]
+    (runApi h).log.length = 9 ∧
+    dumpStore (runApi h).live = "1::;2::||1><;2><" ∧
+    dumpStore (runApi h).close.reopen.live = "1::;2::||1><;2><" ∧
+    dumpStore (savedDb (runApi h).live).reopen.live = "1::;2::||1><;2><" ∧
+    (runApi h).live.nodePropsOf 2 = [] ∧ (runApi h).close.reopen.live.nodePropsOf 2 = [] := by decide
+
 end Grafeo.Persist
